@@ -252,6 +252,12 @@ class CxxParser:
                     if tok.type != ">" and expected != ">":
                         raise self._parse_error(tok, expected)
 
+                    if tok.type == ">":
+                        # a '>' that does not close the innermost group cannot
+                        # close an enclosing one: it must be an operator
+                        match_stack.append(expected)
+                        continue
+
                     for i, maybe in enumerate(reversed(match_stack)):
                         if tok.type == maybe:
                             for _ in range(i + 1):
